@@ -138,6 +138,11 @@ def verify_function1(ex, c, prop, case):
         if t is None:
             raise Unsupported('parameter %s of %s has no usable type; declare it in the contract' % (nm, c.qualname))
         env[nm] = ex.fresh(t, nm, st)
+    if a.vararg is not None:
+        t = c.params.get(a.vararg.arg)
+        if t is None:
+            raise Unsupported('*%s of %s needs a tuple type in the contract' % (a.vararg.arg, c.qualname))
+        env[a.vararg.arg] = ex.fresh(t, a.vararg.arg, st)
     # ghost parameters
     for g, t in c.ghost.items():
         env[g] = ex.fresh(t, g, st)
@@ -146,6 +151,8 @@ def verify_function1(ex, c, prop, case):
         set_path(st, env, dst, get_path(st, env, srcp))
     st.env = env
     st.ghost['now'] = VInt(z3.Int(fresh_name('now')))
+    for gname, gtype in c.ghost_init.items():
+        st.ghost[gname] = ex.fresh(gtype, gname, st)
     # assume requires + invariants
     senv0 = SpecEnv(st, dict(env))
     for nm, text in c.requires + c.inv:
